@@ -576,3 +576,6 @@ func safeExecute(chk FullCheck, sc *Scenario, w *World) (v *Violation, err error
 	}()
 	return chk.Execute(sc, w)
 }
+
+// PanicSig extracts a stable description (panic message + first DVID frame) from a panic report.
+func PanicSig(s string) string { return panicSig(s) }
